@@ -106,4 +106,7 @@ TagImpliesNothing == inner # "none" => dtype # "None"
 
 \* totals only move when an engine ran (or on a successful init / reset)
 TotalsStable == [][(tin' # tin \/ tout' # tout) => (engineRan' # "no" \/ what'.fn \in {"init", "reset"})]_vars
+\* a refused call (wrong kind, custom allocator, bad flush value, missing buffer) leaves the stream
+\* state where it was: the caller can carry on with the stream afterwards
+RefusalKeepsState == [][(what'.misuse /\ what'.fn \in {"call", "end", "reset"}) => inner' = inner]_vars
 =============================================================================
